@@ -487,4 +487,394 @@ theorem union_case_added_or_removed (fuel : Nat) (l : List (Option ETy)) (c : Op
   · simp [cmp, union_case_added_warns (cmp fuel) l c hne hs]
   · simp [cmp, union_case_removed_warns (cmp fuel) l c hne hs]
 
+/-! ### records: fields reordered -/
+
+theorem namesDistinct_iff_nodup {α : Type} : ∀ (l : List (Nat × α)), namesDistinct l = true ↔ (l.map (·.1)).Nodup
+  | [] => by simp [namesDistinct]
+  | a :: r => by
+    simp only [namesDistinct, Bool.and_eq_true, Bool.not_eq_true', List.any_eq_false, beq_iff_eq, List.map_cons,
+      List.nodup_cons, List.mem_map, not_exists, not_and, namesDistinct_iff_nodup r]
+
+theorem lookupField_of_mem (l : List (Nat × ETy)) (hd : namesDistinct l = true) (e : Nat × ETy) (he : e ∈ l) :
+    lookupField l e.1 = some e.2 := by
+  obtain ⟨i, hi⟩ := List.getElem?_of_mem he
+  exact (lookupField_self l i e.1 e.2 hd hi).1
+
+/-- reordering the fields of a record emits no message, whatever the permutation -/
+theorem recordSev_perm (f : ETy → ETy → Cls) (new old : List (Nat × ETy)) (hp : new.Perm old)
+    (hd : namesDistinct old = true) (hf : ∀ e ∈ old, f e.2 e.2 = .same) : recordSev f new old = .ok := by
+  have hdn : namesDistinct new = true := by
+    rw [namesDistinct_iff_nodup] at hd ⊢
+    exact (hp.map (·.1)).symm.nodup hd
+  have hadd : (new.any fun e => (lookupField old e.1).isNone && !isNullable e.2) = false := by
+    simp only [List.any_eq_false]
+    intro e he
+    simp [lookupField_of_mem old hd e (hp.mem_iff.mp he)]
+  unfold recordSev
+  simp only [hadd, Bool.false_eq_true, if_false]
+  exact foldl_fixed _ old _ (by
+    intro e he a
+    simp [lookupField_of_mem new hdn e (hp.mem_iff.mpr he), hf e he, Cls.sev, Sev.max_ok_right])
+
+theorem recordChange_cases (f : ETy → ETy → Cls) (new old : List (Nat × ETy)) :
+    recordChange f new old = .same ∨ recordChange f new old = .defChanged := by
+  unfold recordChange
+  split <;> simp
+
+/-- reordering the fields of a record that a protocol step uses is silent (documented: compatible) -/
+theorem fields_reordered_verdict (r : Nat) (new old : List (Nat × ETy)) (hp : new.Perm old)
+    (hd : namesDistinct old = true) (hw : ∀ e ∈ old, wfT e.2 = true) (hdf : ∀ e ∈ old, defFree e.2 = true) :
+    stepVerdict [(r, .record r (fieldsOfList new))] (.record r (fieldsOfList new)) (.record r (fieldsOfList old)) = .ok := by
+  have hself : ∀ (K : Nat), depthF (fieldsOfList old) ≤ K → ∀ e ∈ old, cmp K e.2 e.2 = .same := fun K hK e he =>
+    cmp_self K e.2 (hw e he) (Nat.le_trans (depth_le_depthF_fieldsOfList old e he) hK)
+  have hk : depth (.record r (fieldsOfList new)) + depth (.record r (fieldsOfList old))
+      = (depthF (fieldsOfList new) + depthF (fieldsOfList old) + 1) + 1 := by
+    simp only [depth]; omega
+  have hdefs : ∀ (K : Nat) (acc : Sev), old.foldl (fun acc e => acc.max (defsSev [(r, .record r (fieldsOfList new))] K e.2)) acc = acc :=
+    fun K acc => foldl_fixed _ old acc (by
+      intro e he a
+      simp [defsSev_defFree _ K e.2 (hdf e he), Sev.max_ok_right])
+  have hrs := recordSev_perm (cmp (depth (.record r (fieldsOfList new)) + depth (.record r (fieldsOfList old)))) new old hp hd
+    (hself _ (by simp only [depth]; omega))
+  unfold stepVerdict
+  rw [hk]
+  have hcmp : cmp (depthF (fieldsOfList new) + depthF (fieldsOfList old) + 1 + 1) (.record r (fieldsOfList new)) (.record r (fieldsOfList old))
+      = recordChange (cmp (depthF (fieldsOfList new) + depthF (fieldsOfList old) + 1)) new old := by
+    simp [cmp]
+  rw [hcmp]
+  rcases recordChange_cases (cmp (depthF (fieldsOfList new) + depthF (fieldsOfList old) + 1)) new old with h | h
+  · simp [h]
+  · simp only [h, reduceCtorEq, if_false, Cls.sev, Sev.max_ok_left]
+    simp only [defsSev, env_find_single, toList_fieldsOfList, hdefs]
+    exact hrs
+
+/-! ### protocol steps: inserted anywhere, moved -/
+
+/-- an unchanged run of steps in the middle of the protocol contributes nothing -/
+theorem protoLoop_mid (env : Env) (old : List EStep) (hd : stepNamesDistinct old = true)
+    (hw : ∀ s ∈ old, wfT s.ty = true) (rest : List EStep) :
+    ∀ (mid front tail : List EStep), old = front ++ mid ++ tail →
+      protoLoop env old (mid ++ rest) front.length .ok = protoLoop env old rest (front.length + mid.length) .ok
+  | [], front, tail, _ => by simp
+  | s :: r, front, tail, h => by
+    have hi : old[front.length]? = some s := by simp [h]
+    have hf := findStep_self old front.length s hd hi
+    have hm := matchedStepVerdict_self env s (hw s (List.mem_of_getElem? hi))
+    have ih := protoLoop_mid env old hd hw rest r (front ++ [s]) tail (by simp [h])
+    simp only [List.length_append, List.length_cons, List.length_nil, Nat.zero_add] at ih
+    simp only [List.cons_append, protoLoop, hf, bne_self_eq_false, Bool.false_eq_true, if_false, hm, sev_max_ok, ih,
+      List.length_cons]
+    congr 1
+    omega
+
+theorem stepNamesDistinct_insert_fresh : ∀ (pre suf : List EStep) (s : EStep), stepNamesDistinct (pre ++ suf) = true →
+    (∀ x ∈ pre ++ suf, x.name ≠ s.name) → stepNamesDistinct (pre ++ s :: suf) = true
+  | [], suf, s, hd, hfresh => by
+    simp only [List.nil_append] at hd hfresh ⊢
+    simp only [stepNamesDistinct, Bool.and_eq_true, Bool.not_eq_true', List.any_eq_false, beq_iff_eq]
+    exact ⟨fun x hx => hfresh x hx, hd⟩
+  | a :: r, suf, s, hd, hfresh => by
+    simp only [List.cons_append, stepNamesDistinct, Bool.and_eq_true, Bool.not_eq_true', List.any_eq_false, beq_iff_eq] at hd ⊢
+    have ih := stepNamesDistinct_insert_fresh r suf s hd.2 (fun x hx => hfresh x (by simp at hx ⊢; exact Or.inr hx))
+    refine ⟨?_, ih⟩
+    intro x hx
+    simp only [List.mem_append, List.mem_cons] at hx
+    rcases hx with hx | rfl | hx
+    · exact hd.1 x (by simp [hx])
+    · exact fun h => hfresh a (by simp) h.symm
+    · exact hd.1 x (by simp [hx])
+
+/-- a step added **anywhere** in an otherwise unchanged protocol: silent when it can be empty, rejected otherwise -/
+theorem inserted_step_verdict (env : Env) (pre suf : List EStep) (s : EStep) (hd : stepNamesDistinct (pre ++ suf) = true)
+    (hw : ∀ x ∈ pre ++ suf, wfT x.ty = true) (hfresh : ∀ x ∈ pre ++ suf, x.name ≠ s.name) :
+    protoVerdict env (pre ++ s :: suf) (pre ++ suf) = if canBeEmpty s then .ok else .err := by
+  have hd' := stepNamesDistinct_insert_fresh pre suf s hd hfresh
+  have hrem : ((pre ++ suf).any fun o => (findStep (pre ++ s :: suf) o.name).isNone) = false := by
+    simp only [List.any_eq_false]
+    intro o ho
+    have hmem : o ∈ pre ++ s :: suf := by
+      simp only [List.mem_append, List.mem_cons] at ho ⊢
+      rcases ho with h | h
+      · exact Or.inl h
+      · exact Or.inr (Or.inr h)
+    obtain ⟨i, hi⟩ := List.getElem?_of_mem hmem
+    simp [findStep_self (pre ++ s :: suf) i o hd' hi]
+  have h1 := protoLoop_mid env (pre ++ suf) hd hw (s :: suf) pre [] suf (by simp)
+  simp only [List.length_nil, Nat.zero_add] at h1
+  have hnone := findStep_none_of_fresh (pre ++ suf) s.name hfresh
+  simp only [protoVerdict, hrem, Bool.false_eq_true, if_false]
+  rw [h1]
+  simp only [protoLoop, hnone, Sev.max_ok_left]
+  by_cases hce : canBeEmpty s = true
+  · simp only [hce, if_true]
+    have h2 := protoLoop_mid env (pre ++ suf) hd hw [] suf pre [] (by simp)
+    simp only [List.append_nil, protoLoop] at h2
+    exact h2
+  · simp only [hce, Bool.false_eq_true, if_false]
+    exact protoLoop_err env (pre ++ suf) suf pre.length
+
+/-- a step that kept its name but not its place (behind an unchanged prefix): rejected -/
+theorem moved_step_is_rejected (env : Env) (pre tail rest : List EStep) (s o : EStep) (i : Nat)
+    (hd : stepNamesDistinct (pre ++ tail) = true) (hw : ∀ x ∈ pre ++ tail, wfT x.ty = true)
+    (hfound : findStep (pre ++ tail) s.name = some (i, o)) (hmoved : i ≠ pre.length) :
+    protoVerdict env (pre ++ s :: rest) (pre ++ tail) = .err := by
+  have h1 := protoLoop_mid env (pre ++ tail) hd hw (s :: rest) pre [] tail (by simp)
+  simp only [List.length_nil, Nat.zero_add] at h1
+  simp only [protoVerdict]
+  by_cases hrem : ((pre ++ tail).any fun o => (findStep (pre ++ s :: rest) o.name).isNone) = true
+  · simp only [hrem, if_true]
+    exact protoLoop_err env _ _ _
+  · simp only [hrem, Bool.false_eq_true, if_false]
+    rw [h1]
+    have hne : (i != pre.length) = true := by simp [hmoved]
+    simp only [protoLoop, hfound, hne, if_true, Sev.max_ok_left, Sev.max_err_left]
+    exact protoLoop_err env _ _ _
+
+/-! ### enums, scalar <-> vector / array, generic type arguments, optional <-> union -/
+
+/-- changing an enum definition other than by adding symbols is rejected: a different base type, `!enum` <-> `!flags`,
+    a removed symbol, a symbol with another value -/
+theorem enum_definition_change (newFlags oldFlags : Bool) (newBase oldBase : Prim) (newSyms oldSyms : List (Nat × Int)) :
+    (newFlags ≠ oldFlags → enumSev newFlags newBase newSyms oldFlags oldBase oldSyms = .err) ∧
+    (newBase ≠ oldBase → enumSev newFlags newBase newSyms oldFlags oldBase oldSyms = .err) ∧
+    (∀ e ∈ oldSyms, lookupSym newSyms e.1 = none → enumSev newFlags newBase newSyms oldFlags oldBase oldSyms = .err) ∧
+    (∀ e ∈ oldSyms, ∀ v, lookupSym newSyms e.1 = some v → v ≠ e.2 → enumSev newFlags newBase newSyms oldFlags oldBase oldSyms = .err) := by
+  refine ⟨?_, ?_, ?_, ?_⟩
+  · intro h; simp [enumSev, h]
+  · intro h; simp [enumSev, enumBreaks, h]
+  · intro e he hl
+    have : (oldSyms.any fun e => (lookupSym newSyms e.1).isNone) = true := by
+      simp only [List.any_eq_true]; exact ⟨e, he, by simp [hl]⟩
+    simp [enumSev, enumBreaks, this]
+  · intro e he v hl hne
+    unfold enumSev enumBreaks
+    simp
+    intro _ _ _
+    exact ⟨e.1, e.2, he, by simp [hl, hne]⟩
+
+/-- and adding symbols only is accepted silently -/
+theorem enum_symbols_added_is_silent (fl : Bool) (base : Prim) (newSyms oldSyms : List (Nat × Int))
+    (hkept : ∀ e ∈ oldSyms, lookupSym newSyms e.1 = some e.2) : enumSev fl base newSyms fl base oldSyms = .ok := by
+  unfold enumSev enumBreaks
+  have h1 : (oldSyms.any fun e => (lookupSym newSyms e.1).isNone) = false := by
+    simp only [List.any_eq_false]; intro e he; simp [hkept e he]
+  simp [h1]
+  intro x x1 hx
+  simp [hkept (x, x1) hx]
+
+/-- changing a scalar into a vector or an array of it, or back, is rejected -/
+theorem scalar_to_vector_or_array_rejected (fuel : Nat) (t : ETy) (hs : plainScalar t = true) (l : Option Nat) (k : ArrKind) :
+    cmp (fuel + 1) (.vector t l) t = .error ∧ cmp (fuel + 1) t (.vector t l) = .error ∧
+    cmp (fuel + 1) (.array t k) t = .error ∧ cmp (fuel + 1) t (.array t k) = .error := by
+  cases t <;> simp [plainScalar, isDim, isScalarGen] at hs <;> simp [cmp]
+
+theorem argsChange_length : ∀ (f : ETy → ETy → Cls) (a b : List (Nat × ETy)), a.length ≠ b.length → argsChange f a b = none
+  | _, [], [], h => by simp at h
+  | _, [], _ :: _, _ => rfl
+  | _, _ :: _, [], _ => rfl
+  | f, x :: a, y :: b, h => by
+    have ih := argsChange_length f a b (by simpa using h)
+    simp only [argsChange, ih]
+    split <;> rfl
+
+/-- a different number of type arguments is rejected -/
+theorem type_argument_count_change_rejected (fuel : Nat) (n : Nat) (as as' b b' : EFields) (h : as.toList.length ≠ as'.toList.length) :
+    cmp (fuel + 1) (.inst n as b) (.inst n as' b') = .error := by
+  simp [cmp, argsChange_length (cmp fuel) as.toList as'.toList h]
+
+/-- a changed type argument (anything but the same type, or the same definition changed compatibly) is rejected -/
+theorem type_argument_change_rejected (fuel : Nat) (n : Nat) (a a' : ETy) (b b' : EFields)
+    (h : (cmp fuel a a').matches = false) :
+    cmp (fuel + 1) (.inst n (.cons 0 a .nil) b) (.inst n (.cons 0 a' .nil) b') = .error := by
+  simp [cmp, EFields.toList, argsChange, h]
+
+theorem anyCase_of_mem (g : ETy → Cls) : ∀ (l : List (Option ETy)) (t : ETy), some t ∈ l → (g t).matches = true → anyCase g l = true
+  | [], _, h, _ => by simp at h
+  | none :: r, t, h, hm => by
+    simp only [List.mem_cons, reduceCtorEq, false_or] at h
+    simp [anyCase, anyCase_of_mem g r t h hm]
+  | some u :: r, t, h, hm => by
+    simp only [List.mem_cons, Option.some.injEq] at h
+    rcases h with rfl | h
+    · simp [anyCase, hm]
+    · simp [anyCase, anyCase_of_mem g r t h hm]
+
+/-- an optional type becomes a union with a null case that still holds the type, or the reverse: a warning -/
+theorem optional_union_interchange (fuel : Nat) (t : ETy) (rest : List (Option ETy)) (hw : wfT t = true) (h : depth t ≤ fuel)
+    (hmem : some t ∈ rest) :
+    cmp (fuel + 1) (.optional t) (.union (casesOfList (none :: rest))) = .warn ∧
+    cmp (fuel + 1) (.union (casesOfList (none :: rest))) (.optional t) = .warn := by
+  have hself := cmp_self fuel t hw h
+  have h1 := anyCase_of_mem (fun c => cmp fuel t c) rest t hmem (by simp [hself, Cls.matches])
+  have h2 := anyCase_of_mem (fun c => cmp fuel c t) rest t hmem (by simp [hself, Cls.matches])
+  constructor <;> simp [cmp, h1, h2]
+
+/-! ### unions: cases reordered -/
+
+/-- cases at different positions never match one another (the validator rejects duplicate case types) -/
+def NoCross (f : ETy → ETy → Cls) (olds : List (Option ETy)) : Prop :=
+  ∀ (i j : Nat) (a b : Option ETy), olds[i]? = some a → olds[j]? = some b → i ≠ j → (cmpCase f a b).matches = false
+
+theorem findMatch_at (f : ETy → ETy → Cls) (c : Option ETy) (hc : cmpCase f c c = .same) :
+    ∀ (olds : List (Option ETy)) (om : List Bool) (j base : Nat), om.length = olds.length → olds[j]? = some c →
+      om[j]? = some false →
+      (∀ k, k < j → ∀ o, olds[k]? = some o → om[k]? = some true ∨ (cmpCase f c o).matches = false) →
+      findMatch f c olds om base = some (base + j, .same)
+  | [], _, j, _, _, h, _, _ => by simp at h
+  | _ :: _, [], _, _, hl, _, _, _ => by simp at hl
+  | o :: os, m :: ms, 0, base, _, ho, hm, _ => by
+    simp only [List.getElem?_cons_zero, Option.some.injEq] at ho hm
+    subst ho; subst hm
+    simp [findMatch, hc, Cls.matches]
+  | o :: os, m :: ms, j + 1, base, hl, ho, hm, hk => by
+    simp only [List.getElem?_cons_succ] at ho hm
+    have ih := findMatch_at f c hc os ms j (base + 1) (by simpa using hl) ho hm
+      (fun k hkj o' ho' => by simpa using hk (k + 1) (by omega) o' (by simpa using ho'))
+    have h0 := hk 0 (by omega) o (by simp)
+    simp only [List.getElem?_cons_zero, Option.some.injEq] at h0
+    have e : base + 1 + j = base + (j + 1) := by omega
+    rcases h0 with h0 | h0
+    · simp only [findMatch, h0, if_true, ih, e]
+    · cases m with
+      | true => simp only [findMatch, if_true, ih, e]
+      | false => simp only [findMatch, Bool.false_eq_true, if_false, h0, ih, e]
+
+theorem setTrue_length : ∀ (l : List Bool) (j : Nat), (setTrue l j).length = l.length
+  | [], _ => rfl
+  | _ :: _, 0 => rfl
+  | _ :: r, j + 1 => by simp [setTrue, setTrue_length r j]
+
+theorem setTrue_get : ∀ (l : List Bool) (j k : Nat), j < l.length →
+    (setTrue l j)[k]? = if k = j then some true else l[k]?
+  | [], _, _, h => by simp at h
+  | _ :: r, 0, k, _ => by
+    cases k with
+    | zero => simp [setTrue]
+    | succ k => simp [setTrue]
+  | b :: r, j + 1, k, h => by
+    cases k with
+    | zero => simp [setTrue]
+    | succ k =>
+      have := setTrue_get r j k (by simpa using h)
+      simp only [setTrue, List.getElem?_cons_succ, this]
+      by_cases hkj : k = j <;> simp [hkj]
+
+theorem all_true_of_get (l : List Bool) (h : ∀ j, j < l.length → l[j]? = some true) : l.all id = true := by
+  simp only [List.all_eq_true, id]
+  intro b hb
+  obtain ⟨j, hj⟩ := List.getElem?_of_mem hb
+  have hlt : j < l.length := by
+    rcases Nat.lt_or_ge j l.length with h' | h'
+    · exact h'
+    · simp [List.getElem?_eq_none h'] at hj
+  have := h j hlt
+  rw [hj] at this
+  simpa using this
+
+/-- the greedy matching on a permutation: every case finds its own counterpart -/
+theorem unionLoop_perm (f : ETy → ETy → Cls) (olds : List (Option ETy)) (hnd : olds.Nodup) (hnc : NoCross f olds)
+    (hself : ∀ x ∈ olds, cmpCase f x x = .same) :
+    ∀ (R P : List (Option ETy)) (st : UState), (P ++ R).Nodup → (∀ x ∈ P ++ R, x ∈ olds) →
+      st.oldMatches.length = olds.length →
+      (∀ (j : Nat) (o : Option ETy), olds[j]? = some o → (st.oldMatches[j]? = some true ↔ o ∈ P)) →
+      st.newMatches = List.replicate P.length true → st.defsChanged = false →
+      (unionLoop f olds R P.length st).newMatches = List.replicate (P.length + R.length) true ∧
+      (∀ (j : Nat) (o : Option ETy), olds[j]? = some o → ((unionLoop f olds R P.length st).oldMatches[j]? = some true ↔ o ∈ P ++ R)) ∧
+      (unionLoop f olds R P.length st).oldMatches.length = olds.length ∧
+      (unionLoop f olds R P.length st).defsChanged = false
+  | [], P, st, _, _, hl, hom, hnm, hdc => by
+    simp only [unionLoop, List.append_nil, List.length_nil, Nat.add_zero]
+    exact ⟨hnm, hom, hl, hdc⟩
+  | c :: R, P, st, hnd2, hsub, hl, hom, hnm, hdc => by
+    have hcmem : c ∈ olds := hsub c (by simp)
+    obtain ⟨j, hj⟩ := List.getElem?_of_mem hcmem
+    have hjlt : j < olds.length := by
+      rcases Nat.lt_or_ge j olds.length with h' | h'
+      · exact h'
+      · simp [List.getElem?_eq_none h'] at hj
+    have hcP : c ∉ P := by
+      have := List.nodup_append.mp hnd2
+      intro hp
+      exact this.2.2 c hp c (by simp) rfl
+    have homj : st.oldMatches[j]? = some false := by
+      have hlt' : j < st.oldMatches.length := by omega
+      cases hb : st.oldMatches[j]? with
+      | none => simp [List.getElem?_eq_none_iff] at hb; omega
+      | some b =>
+        cases b with
+        | false => rfl
+        | true => exact absurd ((hom j c hj).mp hb) hcP
+    have hfm := findMatch_at f c (hself c hcmem) olds st.oldMatches j 0 hl hj homj
+      (fun k hk o ho => Or.inr (hnc j k c o hj ho (by omega)))
+    simp only [Nat.zero_add] at hfm
+    have hstep := unionLoop_perm f olds hnd hnc hself R (P ++ [c])
+      { oldMatches := setTrue st.oldMatches j, newMatches := true :: st.newMatches,
+        reordered := st.reordered || P.length != j, defsChanged := st.defsChanged || Cls.same == Cls.defChanged }
+      (by simpa [List.append_assoc] using hnd2) (by simpa [List.append_assoc] using hsub)
+      (by simp [setTrue_length, hl])
+      (by
+        intro k o ho
+        simp only [setTrue_get st.oldMatches j k (by omega)]
+        by_cases hkj : k = j
+        · subst hkj
+          have : o = c := by rw [hj] at ho; exact (Option.some.inj ho).symm
+          simp [this]
+        · simp only [hkj, if_false, List.mem_append, List.mem_singleton]
+          have hne : o ≠ c := by
+            intro he
+            subst he
+            have hklt : k < olds.length := by
+              rcases Nat.lt_or_ge k olds.length with h' | h'
+              · exact h'
+              · simp [List.getElem?_eq_none h'] at ho
+            exact hkj ((List.getElem?_inj hklt hnd).mp (ho.trans hj.symm))
+          rw [hom k o ho]
+          constructor
+          · intro h; exact Or.inl h
+          · intro h; rcases h with h | h
+            · exact h
+            · exact absurd h hne)
+      (by simp [hnm, List.replicate_succ])
+      (by simp [hdc])
+    simp only [List.length_append, List.length_cons, List.length_nil, Nat.zero_add, List.append_assoc, List.singleton_append] at hstep
+    simp only [unionLoop, hfm, List.length_cons]
+    have e : P.length + (R.length + 1) = P.length + 1 + R.length := by omega
+    rw [e]
+    exact hstep
+
+/-- reordering the cases of a union emits no message (documented: compatible), whatever the permutation -/
+theorem union_cases_reordered (f : ETy → ETy → Cls) (news olds : List (Option ETy)) (hp : news.Perm olds) (hne : olds ≠ [])
+    (hnd : olds.Nodup) (hnc : NoCross f olds) (hself : ∀ x ∈ olds, cmpCase f x x = .same) :
+    (unionChange f news olds).sev = .ok := by
+  have hndn : news.Nodup := hp.symm.nodup hnd
+  have h := unionLoop_perm f olds hnd hnc hself news [] ⟨olds.map fun _ => false, [], false, false⟩
+    (by simpa using hndn) (by intro x hx; exact hp.mem_iff.mp (by simpa using hx)) (by simp)
+    (by
+      intro j o ho
+      have hlt : j < olds.length := by
+        rcases Nat.lt_or_ge j olds.length with h' | h'
+        · exact h'
+        · simp [List.getElem?_eq_none h'] at ho
+      simp [List.getElem?_map, ho]) rfl rfl
+  simp only [List.length_nil, Nat.zero_add, List.nil_append] at h
+  obtain ⟨hnm, hom, hlen, hdc⟩ := h
+  have hlenn : news.length = olds.length := hp.length_eq
+  have hpos : 0 < news.length := by rw [hlenn]; exact List.length_pos_iff.mpr hne
+  have hany : (unionLoop f olds news 0 ⟨olds.map fun _ => false, [], false, false⟩).newMatches.any id = true := by
+    rw [hnm]
+    cases hn : news.length with
+    | zero => omega
+    | succ m => simp [List.replicate_succ]
+  have hall1 : (unionLoop f olds news 0 ⟨olds.map fun _ => false, [], false, false⟩).newMatches.all id = true := by
+    rw [hnm]; simp
+  have hall2 : (unionLoop f olds news 0 ⟨olds.map fun _ => false, [], false, false⟩).oldMatches.all id = true := by
+    apply all_true_of_get
+    intro j hj
+    rw [hlen] at hj
+    have ho : olds[j]? = some olds[j] := List.getElem?_eq_getElem hj
+    exact (hom j olds[j] ho).mpr (hp.mem_iff.mpr (List.getElem_mem hj))
+  unfold unionChange
+  simp only [hany, hall1, hall2, Bool.not_true, Bool.false_eq_true, if_false, Bool.and_self, hdc, Bool.or_false]
+  split <;> rfl
+
 end Yardl.Evo
